@@ -20,18 +20,53 @@ import (
 
 const vfWKTPath = "google/protobuf/any.proto"
 
+// vfWKTChainPath is a built-in well-known type that itself imports other well-known types
+// (api.proto -> source_context.proto, type.proto; type.proto -> any.proto, source_context.proto).
+const vfWKTChainPath = "google/protobuf/api.proto"
+
+// vfWKTClosure: the well-known type path and every well-known type it transitively imports, according to the real
+// datawkt import table.
+func vfWKTClosure(path string, into map[string]struct{}) {
+	if _, ok := into[path]; ok {
+		return
+	}
+	into[path] = struct{}{}
+	imports, _ := datawkt.FileImports(path)
+	for _, imp := range imports {
+		vfWKTClosure(imp, into)
+	}
+}
+
+// vfWKTStub: a stub compiler result for a built-in well-known type, with its built-in imports.
+func vfWKTStub(path string, built map[string]*vfFile) *vfFile {
+	if f, ok := built[path]; ok {
+		return f
+	}
+	name := path
+	f := &vfFile{idx: -1, path: path, fdp: &descriptorpb.FileDescriptorProto{Name: &name}}
+	built[path] = f
+	imports, _ := datawkt.FileImports(path)
+	for _, imp := range imports {
+		f.deps = append(f.deps, vfWKTStub(imp, built))
+		f.fdp.Dependency = append(f.fdp.Dependency, imp)
+	}
+	return f
+}
+
 func VerifLemma_C10D_LsFilesEqualsBuild() {
 	ctx := context.Background()
 	g := vfNondetGraph(verifParam("N"), 1, false, false)
 	n := g.n
 	// Optionally one file also imports a well-known type that the workspace does not provide.
 	wktImporter := verifNondetChoice(n+1) - 1
-	var wkt *vfFile
+	wktPath := vfWKTPath
 	if wktImporter >= 0 {
-		name := vfWKTPath
-		wkt = &vfFile{idx: -1, path: name, fdp: &descriptorpb.FileDescriptorProto{Name: &name}}
+		if verifNondetBool() {
+			wktPath = vfWKTChainPath
+		}
+		name := wktPath
 		f := g.files[wktImporter]
-		f.deps = append(f.deps, wkt)
+		f.deps = append(f.deps, vfWKTStub(name, map[string]*vfFile{}))
 		f.fdp.Dependency = append(f.fdp.Dependency, name)
 	}
 	isTarget := [vfMax]bool{}
@@ -90,7 +125,19 @@ func VerifLemma_C10D_LsFilesEqualsBuild() {
 		if reached {
 			verifCover("well-known type import listed")
 		}
-		verifAssert((image.GetFile(vfWKTPath) != nil) == reached, "well-known type is in the image iff a target reaches its importer")
+		wktClosure := map[string]struct{}{}
+		vfWKTClosure(wktPath, wktClosure)
+		verifAssert(wktPath != vfWKTChainPath || len(wktClosure) >= 4, "the chained well-known type has transitive built-in imports")
+		for path := range wktClosure {
+			verifAssert((image.GetFile(path) != nil) == reached, "a well-known type is in the image iff a target reaches its importer")
+			found := false
+			for _, info := range listed {
+				if info.Path() == path {
+					found = true
+				}
+			}
+			verifAssert(found == reached, "ls-files lists a (transitively) imported well-known type iff a target reaches its importer")
+		}
 	}
 }
 
@@ -130,6 +177,10 @@ func VerifLemma_C10F_WorkspaceLsFiles() {
 		}
 	}
 	wktImporter := verifNondetChoice(n+1) - 1
+	wktPath := vfWKTPath
+	if wktImporter >= 0 && verifNondetBool() {
+		wktPath = vfWKTChainPath
+	}
 	isTarget := [vfMax]bool{}
 	nTargets := 0
 	for i := 0; i < n; i++ {
@@ -151,7 +202,7 @@ func VerifLemma_C10F_WorkspaceLsFiles() {
 	for i := 0; i < n; i++ {
 		src := "syntax = \"proto3\";\npackage " + vfModName(i) + ";\n"
 		if i == wktImporter {
-			src += "import \"" + vfWKTPath + "\";\n"
+			src += "import \"" + wktPath + "\";\n"
 		}
 		for j := 0; j < n; j++ {
 			if adj[i][j] {
@@ -255,19 +306,23 @@ func VerifLemma_C10F_WorkspaceLsFiles() {
 			}
 		}
 	}
-	wktFound := 0
-	for _, info := range listed {
-		if info.Path() == vfWKTPath {
-			wktFound++
-			verifAssert(info.IsImport(), "the well-known type is an import")
+	wktClosure := map[string]struct{}{}
+	vfWKTClosure(wktPath, wktClosure)
+	for path := range wktClosure {
+		wktFound := 0
+		for _, info := range listed {
+			if info.Path() == path {
+				wktFound++
+				verifAssert(info.IsImport(), "the well-known type is an import")
+			}
 		}
-	}
-	if wktReached {
-		wantCount++
-		verifCover("well-known type listed")
-		verifAssert(wktFound == 1, "an imported well-known type is listed once")
-	} else {
-		verifAssert(wktFound == 0, "an unreached well-known type is not listed")
+		if wktReached {
+			wantCount++
+			verifCover("well-known type listed")
+			verifAssert(wktFound == 1, "a (transitively) imported well-known type is listed once")
+		} else {
+			verifAssert(wktFound == 0, "an unreached well-known type is not listed")
+		}
 	}
 	verifAssert(len(listed) == wantCount, "nothing else is listed")
 	for i := 0; i+1 < len(listed); i++ {
